@@ -79,11 +79,22 @@ def run_c01(ck, ctx):
         else:
             pk, meta = G.conforming_stream(R)
         data = G.encode(pk)
+        data_stave = data
+        if i % 5 == 3:
+            # stave mode keys the validators by FEE ID: the same conforming staves read out through ONE source (same CRU, end point and
+            # link id), their packets interleaved, are still conforming there (seeded C01-m5 / C06-m4: a dispatcher shortcut keyed on
+            # the link id or on the read-out source hands a packet to the previous packet's validator)
+            pk2, meta2 = G.conforming_stream(R, nlinks=R.randint(2, 4), max_hbf=3, mode=R.choice(['rr', 'rand']))
+            for p in pk2: p.rdh.update(link=3, cru=23, dw=0)
+            pk, meta = pk2, dict(meta2, one_readout_source=True)
+            data_stave = G.encode(pk2)
+            ck.count('c01_stave_streams_with_one_readout_source')
         for m in MODES:
+            if meta.get('one_readout_source') and m[1] != 'stave': continue
             for opt in ([], ['-m'], ['-E', '7']):
                 for via in ('file', 'pipe'):
                     if tier == 'quick' and (i * 7 + len(opt) + (via == 'pipe')) % 3 and (opt or via == 'pipe'): continue
-                    jobs.append((i, meta, m, opt, via, data))
+                    jobs.append((i, meta, m, opt, via, data_stave if m[1] == 'stave' else data))
 
     def job(j):
         i, meta, m, opt, via, data = j
